@@ -7,7 +7,7 @@
 From Coq Require Import String List ZArith NArith Bool.
 Import ListNotations.
 From OV Require Import Base.Bytes Base.Tree Gen.Conv Model.Value Model.XPathFrag Model.Decl Model.Eval.
-From OV Require Import Proofs.Value Proofs.Validate Proofs.EvalPure Proofs.EvalCache Proofs.EvalExamples.
+From OV Require Import Proofs.Value Proofs.Validate Proofs.EvalPure Proofs.EvalCache Proofs.EvalSpec Proofs.EvalExamples.
 
 Section C02.
   Variable root : tree.
@@ -82,3 +82,65 @@ Proof. exact normalize_laws. Qed.
 (* Template expansion needs at most #declarations + 1 units of fuel: a cycle is an error. *)
 Theorem validate_terminates : forall ds fexists pexists, validate ds fexists pexists <> VFuel.
 Proof. exact validate_terminates. Qed.
+
+(* eval_matches_spec (full statement):
+     forall ds fexists pexists top root query ext fsigs fcall pcall p,
+       validate ds fexists pexists = VOk top -> valid root p ->
+       Some (eval_nocache root query ext fsigs fcall pcall top p)
+       = eval_spec root query ext fsigs fcall pcall ds p.
+   Proved below for the validated tree: the uncached evaluation of a validated tree equals the
+   documented evaluation (spec_tf: D2 anchoring, D3 composition / argument passing, D4 a single
+   normalisation) of the declarations the tree stands for (erase top: kinds, fqdns, hashes and
+   parent links forgotten).  MISSING for the full statement: the link
+       validate ds = VOk top -> expand_final ds = Some (erase top)   (up to the order of object members)
+   i.e. that validate's template expansion / kind resolution / child linking produce exactly the
+   substituted declarations (D1) in the shape wf_b; it is checked on every generated schema by
+   check_case (validate ds = dumped tree, wf_b (dumped tree), eval_spec ds = observed) but not
+   proved.  Two hypotheses about printing remain (true by inspection of Z_to_dec / fmt_float,
+   sampled in print_trim_samples): the printed form of a number has no surrounding white space,
+   so that normalising a child's value a second time in the parent is the identity. *)
+Theorem eval_matches_spec_partial :
+  forall root query ext fsigs fcall pcall,
+  (forall x p ps, valid root p -> query x p = Some ps -> Forall (valid root) ps) ->
+  (forall z, trim_space (Z_to_dec z) = Z_to_dec z) ->
+  (forall f, trim_space (fmt_float f) = fmt_float f) ->
+  forall top, wf_b true top = true -> funcs_ok fsigs top ->
+  forall p, valid root p ->
+  eval_nocache root query ext fsigs fcall pcall top p
+  = to_res (spec_tf root query ext fsigs fcall pcall (erase top) false p).
+Proof. exact eval_matches_spec_tree. Qed.
+
+(* eval_order_independent (full statement; NOT proved, no theorem is claimed):
+     the value of an object is invariant under permutation of its member declarations
+       forall i x ks ks', p_kind (v_pub i) = KObject -> Permutation ks ks' -> NoDup (map key ks) ->
+         (no member evaluates to Panic) ->
+         eval_nocache (VD i x ks) p = eval_nocache (VD i x ks') p.
+   MISSING: bytes_ltb is a strict total order and obj_set commutes on distinct keys over a
+   key-sorted list; with those, p_object_loop is permutation invariant.  In the implementation
+   the member order is fixed by validateObject's sort, so the map's iteration order only
+   influences which hash CLASS NUMBER a declaration gets; eval_matches_spec_partial (the spec
+   folds members in the same order) and the sibling-independence oracle cover the rest. *)
+
+(* With array children sorted by fqdn string (validateArray before the F3 repair) the documented
+   order is lost for >= 10 children. *)
+Theorem array_order_old_refuted :
+  exists top, validated ds_f3 = Some top /\ wf_b true top = true /\
+    Some (run_nocache doc_nested top []) = run_spec doc_nested ds_f3 [] /\
+    Some (run_nocache doc_nested (legacy_array_sort top) []) <> run_spec doc_nested ds_f3 [].
+Proof. exact f3_sorted_children_differ. Qed.
+
+(* With a hash that does not include the resolved kinds (before the F19 repair) an empty object
+   and a field with the same xpath share a cache entry. *)
+Theorem hash_collision_old_refuted :
+  exists top, validated ds_f19 = Some top /\ wf_b true top = true /\
+    run_cached false doc_nested top [] = run_nocache doc_nested top [] /\
+    run_cached false doc_nested (legacy_hash top) [] <> run_nocache doc_nested (legacy_hash top) [].
+Proof. exact f19_kindless_hash_collides. Qed.
+
+(* Without the element -> array parent link (before the F20 repair, for arrays below
+   xpath_dynamic) every element has its xpath applied a second time. *)
+Theorem array_element_link_old_refuted :
+  exists top, validated ds_f20b = Some top /\ wf_b true top = true /\
+    Some (run_nocache doc_qx top []) = run_spec doc_qx ds_f20b [] /\
+    Some (run_nocache doc_qx (legacy_unlink top) []) <> run_spec doc_qx ds_f20b [].
+Proof. exact f20_unlinked_elements_requery. Qed.
